@@ -46,9 +46,28 @@ def oracle(abbr, cfg, meta, r):
         return None
     if r[0] != 'ok':
         return 'expand did not return a string: %r' % (r,)
-    if not g.match_pieces(meta['pieces'], r[1]):
+    if not match_alt(meta['pieces'], r[1]):
         return 'output %r does not carry the text as written; expected pieces %r' % (r[1][:300], meta['pieces'][:12])
     return None
+
+
+def match_alt(pieces, out):
+    """text_gen.match_pieces plus pieces ['A', s1, s2, ...]: any one of the literal strings (used where the statement
+    leaves a rendering open, e.g. a void element that received an EMPTY text: `<hr>` or `<hr></hr>`)."""
+    alts = [[pc] if isinstance(pc, str) else list(pc[1:]) if pc[0] == 'A' else g.text_forms(pc[1]) for pc in pieces]
+    memo = set()
+
+    def go(i, pos):
+        if i == len(alts):
+            return pos == len(out)
+        if (i, pos) in memo:
+            return False
+        for a in alts[i]:
+            if out.startswith(a, pos) and go(i + 1, pos + len(a)):
+                return True
+        memo.add((i, pos))
+        return False
+    return go(0, 0)
 
 
 # ---------------------------------------------------------------- shapes: where a payload may appear
@@ -292,7 +311,8 @@ def gen_wrap_nested(ctx, n):
 
 def gen_outside(ctx, n):
     """Inputs outside the statement's domain (unbalanced braces, unescaped `$`, `$#` without or outside the
-    implicit repeater, several implicit repeaters, text given as one string, line breaks inside a wrap line):
+    implicit repeater, several implicit repeaters, text given as one multi-line / padded string together with an
+    implicit repeater (one string without one, and a single trimmed line, are in gen_wrap_alias), line breaks inside a wrap line):
     model/implementation comparison only, plus "no internal error" where `$#` is involved."""
     rng = ctx.rng
     frags = ['{', '}', '\\', '$', '$#', '${1}', '${1:x}', '*', '*2', '>', '+', '^', '(', ')', '[', ']', '"', "'", ' ', 'a', 'p', 'li',
@@ -307,6 +327,182 @@ def gen_outside(ctx, n):
             cfg = dict(cfg, text=t)
         out.append(case('outside-domain', abbr, None, cfg, total='$#' in abbr))
     return out
+
+
+# ---------------------------------------------------------------- snippet-alias element names, text as one string
+# Element names that the HTML snippet registry resolves to another element (renamed tag and/or default attributes).
+# The expected tag and attributes are DOCUMENTED facts, hard-coded here from the Emmet cheat sheet
+# (https://docs.emmet.io/cheat-sheet/, section HTML; fields print as nothing under PLAIN), deliberately NOT read from
+# emmet/snippets/html.py: name -> (tag, attributes as written in the opening tag, void element).
+ALIASES = {
+    'a': ('a', ' href=""', False), 'a:link': ('a', ' href="http://"', False), 'a:mail': ('a', ' href="mailto:"', False),
+    'abbr': ('abbr', ' title=""', False), 'acr': ('acronym', ' title=""', False), 'bdo': ('bdo', ' dir=""', False),
+    'map': ('map', ' name=""', False), 'form': ('form', ' action=""', False),
+    'form:get': ('form', ' action="" method="get"', False), 'form:post': ('form', ' action="" method="post"', False),
+    'label': ('label', ' for=""', False), 'select': ('select', ' name="" id=""', False),
+    'opt': ('option', ' value=""', False), 'option': ('option', ' value=""', False),
+    'video': ('video', ' src=""', False), 'audio': ('audio', ' src=""', False),
+    'ifr': ('iframe', ' src="" frameborder="0"', False), 'obj': ('object', ' data="" type=""', False),
+    'btn:s': ('button', ' type="submit"', False), 'btn:r': ('button', ' type="reset"', False),
+    'bq': ('blockquote', '', False), 'btn': ('button', '', False), 'fig': ('figure', '', False),
+    'figc': ('figcaption', '', False), 'pic': ('picture', '', False), 'cap': ('caption', '', False),
+    'colg': ('colgroup', '', False), 'fst': ('fieldset', '', False), 'fset': ('fieldset', '', False),
+    'optg': ('optgroup', '', False), 'leg': ('legend', '', False), 'sect': ('section', '', False),
+    'art': ('article', '', False), 'hdr': ('header', '', False), 'ftr': ('footer', '', False), 'adr': ('address', '', False),
+    'dlg': ('dialog', '', False), 'str': ('strong', '', False), 'prog': ('progress', '', False), 'mn': ('main', '', False),
+    'tem': ('template', '', False), 'out': ('output', '', False), 'det': ('details', '', False), 'sum': ('summary', '', False),
+    'datal': ('datalist', '', False), 'datag': ('datagrid', '', False), 
+    # void elements (no children are generated below them; as the receiving element they still carry the text)
+    'br': ('br', '', True), 'kg': ('keygen', '', True), 'hr': ('hr', '', True), 'img': ('img', ' src="" alt=""', True),
+    'emb': ('embed', ' src="" type=""', True), 'src': ('source', '', True), 'area': ('area', ' shape="" coords="" href="" alt=""', True),
+}
+ALIAS_NAMES = sorted(ALIASES)
+ALIAS_OPEN = [k for k in ALIAS_NAMES if not ALIASES[k][2]]
+STR_BREAKS = ['\n', '\n', '\n', '\r\n', '\r']
+# documented `markup.href` feature (an `a` receiving a URL or an e-mail address gets it as href): texts that could look
+# like one are generated with the option switched off, so that the text clause alone decides the expected output
+RE_HREFISH = re.compile(r'//|www\.|ftp\.|@|https?:|ftp:|file:', re.I)
+
+
+def rand_w_alias(rng, depth, p_alias):
+    """Random element subtree whose names are snippet aliases with probability p_alias (void aliases only as leaves)."""
+    kids = []
+    if depth < 3 and rng.random() < (0.85 if depth == 0 else 0.55):
+        kids = [rand_w_alias(rng, depth + 1, p_alias) for _ in range(rng.choice([1, 1, 2, 3]))]
+    if rng.random() < p_alias:
+        name = rng.choice(ALIAS_OPEN if kids or rng.random() < 0.8 else ALIAS_NAMES)
+    else:
+        name = rng.choice(g.WNAMES)
+    return g.W(name, rng.choice(['', '', '', 't', 'ab ']), kids=kids)
+
+
+def pieces_alias(items, lenient_void=False):
+    """Expected pieces of a forest of text_gen.X under PLAIN where names may be snippet aliases.  lenient_void: the
+    supplied text is empty/blank, a void element may then be written `<x>` or `<x></x>` (no character of text is
+    concerned, the statement does not choose)."""
+    s = []
+    for x in items:
+        tag, attrs, void = ALIASES.get(x.name, (x.name, '', False))
+        s.append('<' + tag + attrs)
+        if x.title is not None:
+            s.append(' title="' + g.attr_value_form(x.title) + '"')
+        s.append('>')
+        if x.text:
+            s.append(['T', x.text])
+        s.extend(pieces_alias(x.kids, lenient_void))
+        if not (void and not x.text and not x.kids):
+            s.append('</' + tag + '>')
+        elif lenient_void:
+            s.append(['A', '', '</' + tag + '>'])
+    return s
+
+
+def all_w(roots):
+    out = []
+
+    def go(n):
+        out.append(n)
+        for k in n.kids:
+            go(k)
+    for r in roots:
+        go(r)
+    return out
+
+
+def gen_wrap_alias(ctx, n):
+    """Wrap text in BOTH documented forms of the `text` option -- a list of lines or one string -- around trees whose
+    element names are snippet aliases (renamed tags, default attributes, void elements) at every position: as the
+    receiving (deepest last) element, as its ancestors, as siblings before and after it.  One string without an
+    implicit repeater is "the whole text": inserted once (trimmed like the joined lines) into the deepest last
+    element, nowhere else.  One string WITH an implicit repeater is in the statement's domain only when it is a
+    single non-blank already trimmed line (one copy carrying it); other strings there go to the model comparison."""
+    rng = ctx.rng
+    out = []
+    # every alias once in each role: alone, as the receiving element below a plain element, as the parent of the
+    # receiving element, as parent and receiver at once -- with the text in both forms
+    k = 0
+    for nm in ALIAS_NAMES:
+        void = ALIASES[nm][2]
+        other = ALIAS_OPEN[(k * 7 + 3) % len(ALIAS_OPEN)]
+        k += 1
+        shapes = [nm, 'p>' + nm, 'div>em+' + nm] + ([] if void else [nm + '>span', nm + '>i+' + other, 'div>' + nm + '>em>b'])
+        for abbr in shapes:
+            roots = parse_simple(abbr)
+            for text in (rng.choice(['Hello', ' T*x+y>z ', '(a)[b]{c}\n$# ${1}', 'ul>li*2']), [rng.choice(['Hello', ' $$ ', 'p*3'])]):
+                lines = text if isinstance(text, list) else [text]
+                out.append(case('wrap:alias-plain' + (':str' if isinstance(text, str) else ''), abbr,
+                                pieces_alias(g.expect_wrap(roots, lines)), plain({'text': text})))
+    for _ in range(n):
+        p_alias = rng.choice([0.0, 0.5, 0.5, 1.0])
+        roots = [rand_w_alias(rng, 0, p_alias) for _ in range(rng.choice([1, 1, 1, 2, 3]))]
+        nodes = all_w(roots)
+        as_str = rng.random() < 0.6
+        lines = g.rand_lines(rng)
+        starred = rng.random() < 0.4
+        if as_str:
+            if starred:
+                nb = [l.strip() for l in lines if l.strip() and not g.RE_BREAK.search(l.strip())]
+                text = rng.choice(nb) if nb else 'one'
+            else:
+                k = rng.random()
+                text = (rng.choice(lines) if lines else '') if k < 0.3 else rng.choice(STR_BREAKS).join(lines)
+                if rng.random() < 0.3:
+                    text = rng.choice(['', ' ', '\n', '\t ']) + text + rng.choice(['', ' ', '\n', ' \n'])
+            lines = [text]
+        else:
+            text = lines
+        if starred:
+            target = rng.choice(nodes)
+            target.star = True
+            if rng.random() < 0.5:
+                g.sprinkle_ph(rng, target, rng.choice([0.3, 0.6, 1.0]))
+                for nd in all_w([target]):
+                    if nd.name in ALIASES:
+                        nd.ph_attr = False       # attribute ORDER on an alias element is not C04's business
+                if not g.has_ph(target):
+                    target.ph = True
+        abbr = g.render_roots(roots)
+        whole = '\n'.join(lines)
+        opts = {'markup.href': False} if (RE_HREFISH.search(whole) or rng.random() < 0.15) else None
+        cfg = plain({'text': text, 'options': opts} if opts else {'text': text})
+        kind = 'wrap:alias-' + ('implicit' if starred else 'plain') + ('+$#' if any(g.has_ph(r) for r in roots) else '') + (':str' if as_str else '')
+        out.append(case(kind, abbr, pieces_alias(g.expect_wrap(roots, lines), not any(l.strip() for l in lines)), cfg))
+        if any(nd.name in ALIASES for nd in nodes):
+            ctx.cover('wrap:alias-name-present')
+        if any(l.strip() for l in lines):
+            ctx.nontrivial((abbr, text if as_str else tuple(lines)))
+    # strings that are not one trimmed line, with an implicit repeater, and snippets that expand to several elements
+    # (`ul+`, `dl+`, `table+`, `select+`, `pic+`): which element is "deepest last" / what "a line" is there is not
+    # fixed by the statement -- model/implementation comparison only
+    multi = ['ul+', 'ol+', 'dl+', 'table+', 'select+', 'pic+', 'map+', 'ri:d', 'tr+']
+    for _ in range(n // 4):
+        x = rand_w_alias(rng, 1, 0.5)
+        k = rng.random()
+        if k < 0.5:
+            x.star = True
+            text = rng.choice(STR_BREAKS).join(g.rand_lines(rng)) + rng.choice(['', ' ', '\n'])
+            abbr = g.render_roots([x])
+        else:
+            m = rng.choice(multi)
+            abbr = rng.choice(['%s', '%s>' + g.render_w(x), g.render_w(x) + '>%s', 'div>%s*', '%s*']) % m
+            text = g.rand_lines(rng)
+            if rng.random() < 0.5:
+                text = '\n'.join(text)
+        out.append(case('outside-domain:alias', abbr, None, plain({'text': text})))
+    return out
+
+
+def parse_simple(abbr):
+    """`a>b+c>d` (names, `>` and `+` only) -> list of text_gen.W roots."""
+    roots = []
+    level = roots
+    for part in re.split(r'(>)', abbr):
+        if part == '>':
+            level = level[-1].kids
+            continue
+        for nm in part.split('+'):
+            level.append(g.W(nm))
+    return roots
 
 
 RE_UNI_TAG = re.compile(r'<[\w\-:]*[^\x00-\x7f]')
@@ -392,7 +588,13 @@ def run(ctx):
         'attribute value); all payloads up to the stated length over the special characters exhaustively; wrap line lists with '
         'blank lines, padded lines and lines that look like abbreviations / numbering / fields, abbreviation trees with at most one '
         'implicit repeater on an element or group, with `$#` in text and attribute positions or without, and (wrap:nested-*) explicit '
-        'repeaters at several depths inside the implicitly repeated element with `$#` at several depths; non-trivial = non-empty '
+        'repeaters at several depths inside the implicitly repeated element with `$#` at several depths; (wrap:alias-*) the `text` '
+        'option in both forms, a list of lines or ONE string (single line, multi-line with LF/CR/CRLF, padded, blank, empty; with an '
+        'implicit repeater only a single trimmed line), around trees whose element names are HTML snippet aliases (renamed tags, '
+        'default attributes, void elements; expected tags hard-coded from the Emmet cheat sheet) in every role -- receiving element, '
+        'its ancestors, earlier and later siblings -- each alias swept once per role, then random trees mixing alias and plain names, '
+        'markup.href on and off; multi-element snippets (`ul+`, `table+` ...) and multi-line strings under an implicit repeater are '
+        'compared model vs implementation only; non-trivial = non-empty '
         'payload / at least one non-blank line; distinct by (abbreviation, lines). Oracle: the output predicted from the payload by '
         'the statement (unescape; per-line placement) must equal emmet.expand under a configuration that adds nothing between tags. '
         'Outside-domain inputs are compared model vs implementation only.')
@@ -403,6 +605,7 @@ def run(ctx):
     cases += gen_indent(ctx, 600 if quick else 10000)
     cases += gen_wrap(ctx, 1500 if quick else 25000)
     cases += gen_wrap_nested(ctx, 800 if quick else 12000)
+    cases += gen_wrap_alias(ctx, 900 if quick else 20000)
     cases += gen_outside(ctx, 1500 if quick else 30000)
     inplace_text_sequences(ctx)
     for _, _, meta in cases:
